@@ -254,9 +254,12 @@ def step (st : DSt) (line : String) : DSt × String :=
     | some wt, some dt, some hb, some hz =>
       let arrivals : List (Nat × Nat) := if arr == "-" then [] else (arr.splitOn ",").filterMap (fun p =>
         match p.splitOn ":" with | [t, i] => (match t.toNat?, i.toNat? with | some t, some i => some (t, i) | _, _ => none) | _ => none)
-      let tr := Timed.run { wt, dt, hb, exp := exp.toNat? } arrivals close.toNat? hz
-      (st, " ".intercalate (tr.map (fun (t, e) => s!"{t}:" ++ (match e with
-        | .comment => "c" | .event i => s!"e{i}" | .failed => "fail" | .selfClose => "self" | .clientClose => "client" | .endWrite => "endwrite"))))
+      -- every trace the handler can produce, one per resolution of same-instant races (`Timed.runAll`,
+      -- proved sound and complete for `runCh` over all choices): the harness accepts any of them
+      let trs := (Timed.runAll { wt, dt, hb, exp := exp.toNat? } arrivals close.toNat? hz).eraseDups
+      let showTr (tr : List (Nat × Timed.Ev)) : String := " ".intercalate (tr.map (fun (t, e) => s!"{t}:" ++ (match e with
+        | .comment => "c" | .event i => s!"e{i}" | .failed => "fail" | .selfClose => "self" | .clientClose => "client" | .endWrite => "endwrite")))
+      (st, " | ".intercalate (trs.map showTr))
     | _, _, _, _ => (st, "bad-op")
   | "cfg.caddy" :: fields =>
     let m := CfgWire.kv fields
